@@ -53,7 +53,7 @@ structure Ident where
   apiVersion : Option JVal
   kind : Option JVal
   name : Option JVal
-  namespace : Option JVal
+  ns : Option JVal
   deriving Repr, BEq
 
 def identity (v : JVal) : Ident :=
